@@ -3,9 +3,9 @@
 // real MaybeUninit code by engine K unit `string` (bounded capacity).  TRUSTED in engine V units (external_body).
 //@include prelude/string_contracts.rs
 pub enum StringModificationError { InsertWouldExceedCapacity, InvalidCharacter }
-pub open spec fn is_prefix(p: Seq<u8>, s: Seq<u8>) -> bool { p.len() <= s.len() && s.subrange(0, p.len() as int) == p }
-pub open spec fn is_suffix(p: Seq<u8>, s: Seq<u8>) -> bool { p.len() <= s.len() && s.subrange(s.len() - p.len(), s.len() as int) == p }
-pub open spec fn occurs_at(p: Seq<u8>, s: Seq<u8>, i: int) -> bool { 0 <= i && i + p.len() <= s.len() && s.subrange(i, i + p.len()) == p }
+pub open spec fn is_prefix(p: Seq<u8>, s: Seq<u8>) -> bool { occurs_at(p, s, 0) }
+pub open spec fn is_suffix(p: Seq<u8>, s: Seq<u8>) -> bool { occurs_at(p, s, s.len() - p.len()) }
+pub open spec fn occurs_at(p: Seq<u8>, s: Seq<u8>, i: int) -> bool { sc_occurs_at(p, s, i) }
 pub open spec fn unsupported_byte(b: u8) -> bool { sc_unsupported_byte(b) }
 
 #[derive(Clone, Copy)]
